@@ -21,7 +21,7 @@ RULE = (
     "argument type, unknown bucket -> function error; unterminated string, empty right-hand side, assignment to a non-variable -> parse error). Oracle: under a 10 s "
     "alarm the outcome is a value or a QueryException; any other exception whose traceback does not pass through a q2_* built-in body, aw_transform or aw_datastore "
     "escaped from parsing or name/arity/type resolution -> violation (failures below a built-in are ill-typed *contents*, counted as excluded); for (d) the class "
-    "must be the expected one. Non-trivial = the input has '=' with a non-empty right side (reaches a token scanner) and is not accepted by the reference parser."
+    "must be the expected one; the typed corruptions are additionally ENUMERATED completely (every built-in x argument position x wrong literal x arity error). Non-trivial = the input has '=' with a non-empty right side (reaches a token scanner) and is not accepted by the reference parser."
 )
 ASSUMPTIONS = [
     "inputs are at most 128 characters for the fuzzer, ~60 for random text, up to ~15 000 characters for the deep-nesting source (the scanners are quadratic in the nesting depth, so far longer inputs can legitimately need more than the alarm); termination means 'returns within 10 s' (a miss is re-tried once with 60 s before it counts, so that a loaded machine cannot produce a verdict)",
@@ -373,6 +373,26 @@ def run_case(case):
 # (a) atheris
 
 
+def phase_typed_all(task):
+    """every typed corruption for every built-in, argument position and wrong literal (a finite set: enumerated, not sampled)"""
+    st_ = Stats()
+    whichs = ["undefined_var", "unknown_function", "too_many", "too_few", "wrong_type", "unknown_bucket", "unterminated_string", "empty_rhs", "assign_nonvar", "no_return"]
+    for which in whichs[task["lo"] :: task["step"]]:
+        for f in TYPED_FUNCS:
+            for n in range(12):
+                for ws in ("", " ", "\n"):
+                    case = {"kind": "typed", "which": which, "f": f, "n": n, "ws": ws, "q": "'" if n % 2 else '"'}
+                    try:
+                        run_case(case)
+                    except Violation as v:
+                        st_.failure = {"kind": "case", "case": case, "message": v.msg}
+                        return st_
+                    st_.evals += 1
+                    st_.nontrivial.add(case_hash(case))
+    st_.classes["typed_enumerated"] = st_.evals
+    return st_
+
+
 def extra_phases(tier, seed, jobs):
     tasks = []
     if tier == "quick":
@@ -381,7 +401,7 @@ def extra_phases(tier, seed, jobs):
     else:
         for w in range(jobs):
             tasks.append({"runs": 1500000, "seed": seed * 100 + w + 1, "corpus": w % 2 == 1, "budget_s": 3600})
-    return [("atheris", "phase_atheris", tasks)]
+    return [("atheris", "phase_atheris", tasks), ("typed_all", "phase_typed_all", [{"lo": i, "step": 5} for i in range(5)])]
 
 
 def phase_atheris(task):
